@@ -388,11 +388,12 @@ type c11Fault struct {
 	Kind string `json:"kind"` // "stop-ack", "refuse", "wrong-ack", "close"
 	K    int    `json:"k"`    // after how many segments
 	Segs int    `json:"segs"` // number of segments of the transfer
+	Code int    `json:"code"` // refuse: the XFER_REFUSE reason code (0..6)
 }
 
 func TestVerifC11Faults(t *testing.T) {
 	u := vk.Unit{Property: "C11", Name: "c11.faults",
-		Rule: "fault enumeration at message level: for transfers of n = 1..4 segments a scripted peer (a) stops acknowledging after segment k, (b) sends XFER_REFUSE after segment k, (c) acknowledges a wrong final length, (d) the manager is closed after segment k, for all k; Send must return an error (the code's own 10 s timeout for (a)/(c); cases run concurrently); every case non-trivial; distinct by (kind, n, k)"}
+		Rule: "fault enumeration at message level: for transfers of n = 1..4 segments a scripted peer (a) stops acknowledging after segment k, (b) sends XFER_REFUSE (each of the seven reason codes) after segment k, (c) acknowledges a wrong final length, (d) the manager is closed after segment k, for all k; Send must return an error (the code's own 10 s timeout for (a)/(c); cases run concurrently); every case non-trivial; distinct by (kind, n, k, code)"}
 	var cases []c11Fault
 	maxSegs := 3
 	if vk.Tier() == "thorough" {
@@ -400,8 +401,12 @@ func TestVerifC11Faults(t *testing.T) {
 	}
 	for n := 1; n <= maxSegs; n++ {
 		for k := 0; k < n; k++ {
-			for _, kind := range []string{"stop-ack", "refuse", "wrong-ack", "close"} {
+			for _, kind := range []string{"stop-ack", "wrong-ack", "close"} {
 				cases = append(cases, c11Fault{Kind: kind, K: k, Segs: n})
+			}
+			// a refusal is a refusal whatever reason the peer gives: all seven reason codes
+			for code := 0; code <= 6; code++ {
+				cases = append(cases, c11Fault{Kind: "refuse", K: k, Segs: n, Code: code})
 			}
 		}
 	}
@@ -441,7 +446,7 @@ func TestVerifC11Faults(t *testing.T) {
 						send(in, done, msgs.NewDataAcknowledgementMessage(seg.Flags, seg.TransferId, uint64(acked)))
 					case cs.Kind == "stop-ack":
 					case cs.Kind == "refuse":
-						send(in, done, msgs.NewTransferRefusalMessage(msgs.RefusalNoResources, seg.TransferId))
+						send(in, done, msgs.NewTransferRefusalMessage(msgs.TransferRefusalCode(cs.Code), seg.TransferId))
 					case cs.Kind == "wrong-ack":
 						send(in, done, msgs.NewDataAcknowledgementMessage(seg.Flags, seg.TransferId, uint64(acked+1)))
 					case cs.Kind == "close":
